@@ -26,6 +26,7 @@ PROPERTIES = ["C09"]
 ORDER = 10
 
 SIG = "serializer.transfer:torn-after-reconnect"
+SIG_B = "serializer.transfer:torn-after-leader-change"
 
 
 def _store(ser):
@@ -159,6 +160,104 @@ def scenario(repo, mode, variant, workdir):
     return viols, notes
 
 
+def scenario_releader(repo, mode, workdir):
+    """D18b: no connection is ever replaced.  The leader's burst is cut after 4 chunks; before they arrive the
+    follower hears a candidate of a higher term, so it ignores them (`message['term'] >= raftCurrentTerm`,
+    syncobj.py:884); the leader of that higher term begins its own snapshot transfer to the follower (first chunk);
+    the old leader steps down, wins a later term with the follower's vote and — on the pinned code — continues its
+    old transmission at offset 64: the follower appends that to the other leader's first chunk and completes a
+    torn snapshot.  The third node's messages are injected by hand (exactly what a real node sends)."""
+    for name in ("pysyncobj.syncobj", "pysyncobj.serializer"):
+        lg = logging.getLogger(name)
+        if not lg.handlers:
+            lg.addHandler(logging.NullHandler())
+            lg.propagate = False
+    per = {}
+    if mode == "file":
+        per = {i: {"fullDumpFile": os.path.join(workdir, "rl-%s-%s.dump" % (mode, i))} for i in "abc"}
+    sim = Sim(repo, ["a", "b", "c"], seed=3, conf={"logCompactionBatchSize": 16, "useFork": False,
+                                                  "logCompactionMinEntries": 100000, "logCompactionMinTime": 100000},
+              per_node_conf=per)
+    viols, notes = [], {}
+    sim.connect_all()
+    L = sim.elect()
+    F = [i for i in sim.voters if i != L][0]
+    G = [i for i in sim.voters if i not in (L, F)][0]
+    for k in range(3):
+        sim.submit(L, "old%d" % k)
+    sim.run(6)
+    sim.disconnect(L, F)
+    sim.disconnect(G, F)
+    for k in range(12):
+        sim.submit(L, "x%d" % k)
+    sim.run(8, among=[L, G])
+    sim.compact(L)
+    sim.run(4, among=[L, G])
+    l_ser, f_ser = sim.P(L, "serializer"), sim.P(F, "serializer")
+    held = [_store(l_ser)]
+    sim.disconnect(L, G)
+    completions = []
+    real_set = f_ser.setTransmissionData
+
+    def watched_set(data):
+        r = real_set(data)
+        if r:
+            try:
+                f_ser.deserialize()
+                load = "loads"
+            except Exception as e:
+                load = "load fails with " + type(e).__name__
+            completions.append((_store(f_ser), load))
+        return r
+    f_ser.setTransmissionData = watched_set
+    real_get = l_ser.getTransmissionData
+    state = {"n": 0, "armed": True}
+
+    def watched_get(node):
+        r = real_get(node)
+        s = _store(l_ser)
+        if s is not None and s not in held:
+            held.append(s)
+        if node.id == F and r is not None and state["armed"]:
+            state["n"] += 1
+            if state["n"] == 4:
+                state["armed"] = False
+                sim.now[L] += 0.25
+        return r
+    l_ser.getTransmissionData = watched_get
+    sim.connect(L, F)
+    for _ in range(6):
+        sim.tick(L, 0.0625)
+        if not state["armed"]:
+            break
+        sim.deliver_all(among={L, F})
+    T = sim.objs[L].raftCurrentTerm
+    notes["in_flight"] = len(sim.chan[(L, F)])
+    sim.inject(G, F, {"type": "request_vote", "term": T + 1, "last_log_index": 1000, "last_log_term": T})
+    while sim.chan[(L, F)]:
+        sim.deliver(L, F)                   # older term: ignored by the follower
+    sim.inject(G, F, {"type": "append_entries", "term": T + 1, "commit_index": 0, "serialized": (b"G" * 16, True, False)})
+    sim.inject(G, L, {"type": "request_vote", "term": T + 1, "last_log_index": 0, "last_log_term": 0})
+    sim.chan[(F, L)].clear()
+    for _ in range(60):
+        sim.tick(L, 0.0625)
+        sim.deliver_all(among={L, F})
+        if completions:
+            break
+    notes["leader_term_after"] = sim.objs[L].raftCurrentTerm
+    notes["completions"] = len(completions)
+    for st, load in completions:
+        if st not in held:
+            viols.append({"signature": SIG_B,
+                          "what": "%s mode: after the leader was deposed and re-elected (no connection was replaced) it "
+                                  "continued a snapshot transfer of its earlier term at the stored offset; the follower, which had "
+                                  "ignored the first chunks (older term) and held the first chunk of another leader's transfer, "
+                                  "completed with %d bytes that equal no snapshot the leader held (%s bytes); %s"
+                                  % (mode, len(st), [len(h) for h in held], load)})
+            break
+    return viols, notes
+
+
 def run(ctx):
     t0 = time.time()
     viols, sample = [], {}
@@ -168,9 +267,19 @@ def run(ctx):
             v, notes = scenario(ctx.repo, mode, variant, workdir)
             sample["%s/%s" % (mode, variant)] = notes
             viols.extend(tag(v, "d18_torn_snapshot", {"mode": mode, "variant": variant}))
+    for mode in ("memory", "file"):
+        v, notes = scenario_releader(ctx.repo, mode, workdir)
+        sample["%s/releader" % mode] = notes
+        viols.extend(tag(v, "d18_torn_snapshot", {"mode": mode, "variant": "releader"}))
+    sigs, picked = set(), []
+    for v in viols:                      # one violation per signature
+        if v["signature"] not in sigs:
+            sigs.add(v["signature"])
+            picked.append(v)
+    viols = picked
     r = result("witness.d18_torn_snapshot", viols[:2], sample, t0,
-               {"variants": 4, "completed_transfers": sum(n.get("completions", 0) for n in sample.values())})
-    r["cases"] = r["distinct"] = 4
+               {"variants": 6, "completed_transfers": sum(n.get("completions", 0) for n in sample.values())})
+    r["cases"] = r["distinct"] = 6
     # on a repaired tree every variant must end with a completed, intact transfer
     if not viols and any(n.get("completions", 0) == 0 for n in sample.values()):
         r["inconclusive"] = "D18 witness: a variant ended without any completed transfer: %s" % sample
@@ -179,5 +288,8 @@ def run(ctx):
 
 def replay(ctx, violation):
     rp = violation.get("replay", {})
-    v, notes = scenario(ctx.repo, rp.get("mode", "memory"), rp.get("variant", "cut"), ctx.tmpdir())
+    if rp.get("variant") == "releader":
+        v, notes = scenario_releader(ctx.repo, rp.get("mode", "memory"), ctx.tmpdir())
+    else:
+        v, notes = scenario(ctx.repo, rp.get("mode", "memory"), rp.get("variant", "cut"), ctx.tmpdir())
     return {"violated": bool(v), "violations": v, "notes": notes}
